@@ -268,6 +268,7 @@ func copyTree(src, dst, variant string, rnd *hx.Rand) {
 				stat("variant_files_changed:"+variant, 1)
 			}
 			b = nb
+			roundTripFile(filepath.Join(dst, rel), b)
 		}
 		hx.WriteFile(filepath.Join(dst, rel), string(b))
 		return nil
@@ -351,6 +352,17 @@ func runCorpus(repo, work string, rnd *hx.Rand, variants, repopkgs, only string,
 		}
 	}
 	if repopkgs != "" && only == "" {
+		for _, pat := range strings.Split(repopkgs, ",") {
+			if strings.Contains(pat, "...") {
+				pat = "analysis/code" // the recursive pattern: sample one directory for the helper round trip
+			}
+			gofiles, _ := filepath.Glob(filepath.Join(repo, pat, "*.go"))
+			for _, gf := range gofiles {
+				if b, err := os.ReadFile(gf); err == nil {
+					roundTripFile(gf, b)
+				}
+			}
+		}
 		analyzeModule(work, modSpec{dir: repo, variant: "repo", patterns: strings.Split(repopkgs, ","), label: "repo"}, rnd.Fork())
 	}
 	stat("files", len(out.Files))
